@@ -25,6 +25,18 @@ pub fn cases(thorough: bool, seed: u64) -> Vec<Params> {
             }
         }
     }
+    // dense-constant runs: binding factors, nonces and coefficients are structured / pseudo-random
+    // full-width constants, so the real NAF multiscalar code recodes dense bit patterns
+    // (sampling over the scalars of that one kernel, stated as such)
+    for (n, t) in [(2u16, 2u16), (3, 2), (4, 3), (5, 3), (7, 5)] {
+        if n > 5 && !thorough {
+            continue;
+        }
+        for off in 0..(if thorough { 18u64 } else { 6 }) {
+            out.push(Params { n, t, ids: IdSet::Default, subset: (0..t as usize).collect(), variant: 0x100, aux: 100 + off * 3, seed });
+            out.push(Params { n, t, ids: IdSet::Wide(seed), subset: ((n - t) as usize..n as usize).collect(), variant: 0x100, aux: off, seed: seed + off });
+        }
+    }
     out
 }
 
@@ -44,7 +56,7 @@ pub fn message<C: Ciphersuite, L: Lab<C>>(lab: &mut L, kind: u32) -> Vec<u8> {
 }
 
 pub fn run<C: Ciphersuite, L: Lab<C>>(lab: &mut L, p: &Params) {
-    let keys = if p.variant & 1 == 1 {
+    let keys = if p.variant & 1 == 1 && p.variant & 0x100 == 0 {
         match dkg_keys::<C, L>(lab, p) {
             Some(k) => k,
             None => return,
@@ -55,7 +67,7 @@ pub fn run<C: Ciphersuite, L: Lab<C>>(lab: &mut L, p: &Params) {
             None => return,
         }
     };
-    let msg = message::<C, L>(lab, p.variant >> 1);
+    let msg = message::<C, L>(lab, (p.variant & 0xff) >> 1);
     let sess = open_session::<C, L>(lab, &keys, &p.subset, msg.clone());
     let Some(shares) = sign_all::<C, L>(lab, &keys, &sess) else { return };
     let vk = *keys.1.verifying_key();
